@@ -54,7 +54,7 @@ PROPS = {
              "Finite/below-grid-path and the metadata are examined on the implementation on boundary-heavy sources.", RULE_SOLVE, props="props/C03.v"),
     "C04": P(GS, SOLVER2 + SOLVER3, "proof",
              "Theorem (all shapes, every numeric instance incl. binary64 with NaN): at a fixed point of a sweep pass every pair of "
-             "adjacent nodes satisfies T_p <= T_q + d*min(slowness of the cells adjoining the edge); the 4-point operator is never earlier than the "
+             "adjacent nodes satisfies T_p <= T_q + d*min(slowness of the cells adjoining the edge), hence (R) no node is later than any grid path from any other node; the 4-point operator is never earlier than the "
              "diagonal neighbour and the 8-point candidate is discarded when earlier than the opposite corner (no-op on cubic cells). The global lower bound is "
              "examined on the implementation.", RULE_SOLVE, props="props/C04.v"),
     "C05": P(GS + ["Vinterp2d", "Vinterp3d"], SOLVER2 + SOLVER3 + VINTERP, "proof",
@@ -91,7 +91,7 @@ PROPS = {
              "step sizes x max_step", props="props/C10.v", oracle_n=(50, 400), api_corr="api"),
     "C11": P(GS, SOLVER2 + SOLVER3, "proof",
              "Theorems: the traveltime output of sweep/sweep2d/sweep3d does not depend on the gradient flag or the sign array (bit-level, "
-             "source semantics); gradient vectors are g/|g| or 0. Unit norm, zero at the source, direction and the compiled build's "
+             "source semantics), nor does the whole solver's; over R every gradient vector returned by fteik2d / fteik3d is the zero vector or has norm 1. Zero at the source, direction and the compiled build's "
              "bit-identity are examined on the implementation.", RULE_SOLVE, props="props/C11.v"),
     "C12": P(GALL, ALLG, "proof",
              "Theorems: index obligations (f_ok: every subscript in range, no negative wrap-around) of the generated kernels hold for all shapes and inputs: "
